@@ -6,6 +6,10 @@ pub mod r#type;
 pub mod unit;
 pub mod unwind;
 mod utils;
+#[cfg(feature = "verif")]
+pub mod verif_utils {
+    pub use super::utils::PathSearchIndex;
+}
 
 pub use self::unwind::DwarfUnwinder;
 
